@@ -26,6 +26,8 @@ def run_driver(job):
     env = dict(os.environ)
     i, n = job.get("shard", (0, 1))
     env["DRV_SHARD"] = "%d/%d" % (i, n)
+    if job.get("alarm"):
+        env["DRV_ALARM"] = str(int(job["alarm"]))
     env["ASAN_OPTIONS"] = "detect_leaks=0:abort_on_error=0:allocator_may_return_null=1"
     env["UBSAN_OPTIONS"] = "print_stacktrace=1:halt_on_error=1"
     try:
